@@ -356,7 +356,7 @@ def ckey(c):
 
 def run(ctx):
     ctx.coq_props()
-    n = 700 if ctx.tier == "quick" else 6000
+    n = 500 if ctx.tier == "quick" else 6000
     nmax = 5 if ctx.tier == "quick" else 6
     cases = gen_cases(ctx.rng, n, nmax)
     obs = ctx.run_impl("c72_impl.py", {"cases": cases})
